@@ -24,40 +24,41 @@ import (
 type abortRun struct{}
 
 type run struct {
-	prop       string
-	cfg        Config
-	w          *world
-	res        *kernel.Result
-	viol       *kernel.Violation
-	known      map[string]bool
-	step       int
-	verbose    bool
-	trace      *kernel.Hasher
-	slog       *kernel.Hasher
-	states     map[uint64]bool
-	colls      []string
-	lagging    map[string]bool   // owners whose background work is deliberately left pending
-	lagAfter   int               // background commands of an answered call that are let through before it is left pending
-	bgDone     map[string]int    // background commands answered per owner
-	insertedBy map[string]string // operation document id -> owner of the insert command that stored it
-	held       []*heldResp
-	cmdNo      map[string]int // per owner: number of commands answered so far
-	mon        *monitors
-	decisions  int
-	simStart   time.Time
-	stuck      bool
-	inTx       bool
-	stalled    map[*simmongo.Pending]int // database commands the simulated database is slow to answer
-	rd         *reader                   // the read-only observer, if the plan has one
-	cur        *curSync                  // the exchange event being driven (late joiners are added to it)
-	evSlow     int                       // this event: commands during which the whole database was slow (time jumped)
-	evStall    []string                  // this event: the commands the database sat on while everything else went on
-	rogueLog   []string                  // scenario runs: outcome of every rogue request
-	restLog    []string                  // scenario runs: outcome of every REST call
-	verHist    map[string][]string       // scenario runs: versions seen in each user document, in order
-	storm      map[string]bool           // clients that re-send a refused request without end: their requests are no longer delivered
-	evOwners   map[int][]string          // event index -> owners (calls) of its exchange
-	cmdNames   map[string][]string       // owner -> names of its database commands in order
+	prop         string
+	cfg          Config
+	w            *world
+	res          *kernel.Result
+	viol         *kernel.Violation
+	known        map[string]bool
+	step         int
+	verbose      bool
+	trace        *kernel.Hasher
+	slog         *kernel.Hasher
+	states       map[uint64]bool
+	colls        []string
+	lagging      map[string]bool   // owners whose background work is deliberately left pending
+	lagAfter     int               // background commands of an answered call that are let through before it is left pending
+	bgDone       map[string]int    // background commands answered per owner
+	insertedBy   map[string]string // operation document id -> owner of the insert command that stored it
+	held         []*heldResp
+	cmdNo        map[string]int // per owner: number of commands answered so far
+	mon          *monitors
+	decisions    int
+	simStart     time.Time
+	stuck        bool
+	inTx         bool
+	stalled      map[*simmongo.Pending]int // database commands the simulated database is slow to answer
+	rd           *reader                   // the read-only observer, if the plan has one
+	whileStalled func() bool               // called (until it says it is done) when only commands the database sits on are left
+	cur          *curSync                  // the exchange event being driven (late joiners are added to it)
+	evSlow       int                       // this event: commands during which the whole database was slow (time jumped)
+	evStall      []string                  // this event: the commands the database sat on while everything else went on
+	rogueLog     []string                  // scenario runs: outcome of every rogue request
+	restLog      []string                  // scenario runs: outcome of every REST call
+	verHist      map[string][]string       // scenario runs: versions seen in each user document, in order
+	storm        map[string]bool           // clients that re-send a refused request without end: their requests are no longer delivered
+	evOwners     map[int][]string          // event index -> owners (calls) of its exchange
+	cmdNames     map[string][]string       // owner -> names of its database commands in order
 }
 
 type heldResp struct {
@@ -718,6 +719,13 @@ func (r *run) pump(f *focus, g *kernel.Rng, faults []MongoFault, stopAnswered bo
 		for p, n := range r.stalled {
 			if n > 0 {
 				r.stalled[p] = n - 1
+			}
+		}
+		if len(its) == 0 && r.anyStalled() && r.whileStalled != nil {
+			h := r.whileStalled
+			r.whileStalled = nil
+			if !h() {
+				r.whileStalled = h
 			}
 		}
 		if len(its) == 0 && r.anyStalled() {
